@@ -32,6 +32,10 @@ func (t DataType) Bytes(endian binary.ByteOrder, value interface{}, length int64
 		if !ok {
 			return nil, fmt.Errorf("expected *asetypes.Decimal for %s, received %T", t, value)
 		}
+		if dec.i == nil {
+			// NULL, as returned by GoValue for zero-length data
+			return []byte{}, nil
+		}
 		deci := dec.Int()
 
 		bs := make([]byte, length)
@@ -48,6 +52,11 @@ func (t DataType) Bytes(endian binary.ByteOrder, value interface{}, length int64
 		dec, ok := value.(*Decimal)
 		if !ok {
 			return nil, fmt.Errorf("expected *asetypes.Decimal for %s, received %T", t, value)
+		}
+
+		if dec.i == nil {
+			// NULL, as returned by GoValue for zero-length data
+			return []byte{}, nil
 		}
 
 		bs := make([]byte, dec.ByteSize())
